@@ -1,6 +1,7 @@
 (* SemSettle.v — C17 for the Semaphore: re-polling woken acquire futures settles after a number of polls
    bounded by a small multiple of the number of pending futures. Potential:
-     Phi = (#pending futures flagged woken) + 2 * (#notified entries of the event + #pending futures). *)
+     Phi = (#pending futures flagged woken) + 2 * (#notified entries of the event) + 3 * (#pending futures).
+   (The weight 3 pays for the notification a completing acquire passes on when permits are left.) *)
 From AL Require Import Base Api Semaphore SemApi BaseFacts ApiFacts EventFacts SemCount SemLive Settle.
 From Coq Require Import Lia.
 
@@ -9,7 +10,7 @@ Lemma sh_wake_meta wk f : sf_meta (sh_wake wk f) = meta_wake wk (sf_meta f). Pro
 
 Definition sW (x : sworld) : N := cW sfut sf_meta (s_futs x).
 Definition sP (x : sworld) : N := cP sfut sf_meta (s_futs x).
-Definition sPhi (x : sworld) : N := sW x + 2 * (cN (se0 (s_sh x)) + sP x).
+Definition sPhi (x : sworld) : N := sW x + 2 * cN (se0 (s_sh x)) + 3 * sP x.
 Definition sWOK (x : sworld) : Prop := wakers_ok sfut sf_meta (s_futs x).
 
 Lemma s_wake_all_eq wk x : s_futs (s_wake_all wk x) = wake_all sfut sh_wake wk (s_futs x).
@@ -55,8 +56,8 @@ Proof. intro L. apply asum_aupdate. exact L. Qed.
 Lemma phi_bound x fid k f f' x1 : NoDup (map fst (s_futs x)) -> sWOK x -> (k < 4)%nat ->
   alookup fid (s_futs x) = Some f -> fm_w (sf_meta f') = Some (wtag fid k) ->
   s_futs x1 = aupdate fid f' (s_futs x) ->
-  sPhi (s_wake_all (swk (s_sh x1)) x1) + wW sfut sf_meta f + 2 * wP sfut sf_meta f <=
-  sW x + wW sfut sf_meta f' + N.of_nat (length (swk (s_sh x1))) + 2 * (cN (se0 (s_sh x1)) + sP x + wP sfut sf_meta f').
+  sPhi (s_wake_all (swk (s_sh x1)) x1) + wW sfut sf_meta f + 3 * wP sfut sf_meta f <=
+  sW x + wW sfut sf_meta f' + N.of_nat (length (swk (s_sh x1))) + 2 * cN (se0 (s_sh x1)) + 3 * (sP x + wP sfut sf_meta f').
 Proof.
   intros ND WO K4 L Hw EF. unfold sPhi, sW, sP. rewrite s_wake_all_eq. change (s_sh (s_wake_all (swk (s_sh x1)) x1)) with (s_sh x1).
   rewrite (cP_wake sfut sf_meta sh_wake sh_wake_meta). rewrite EF.
@@ -85,7 +86,7 @@ Proof.
   rewrite (sem_poll_paths (wtag fid k) (sf_lis f) (set_wk [] (s_sh x)) (ib_fresh _ _ _ _ _ _ _ I)).
   unfold sem_poll_spec. rewrite Ls. change (sw0 (set_wk [] (s_sh x))) with (sw0 (s_sh x)). change (se0 (set_wk [] (s_sh x))) with (se0 (s_sh x)).
   change (snid (set_wk [] (s_sh x))) with (snid (s_sh x)).
-  assert (PHI : sPhi x = sW x + 2 * (cN (se0 (s_sh x)) + sP x)) by reflexivity.
+  assert (PHI : sPhi x = sW x + 2 * cN (se0 (s_sh x)) + 3 * sP x) by reflexivity.
   destruct (0 <? sw0 (s_sh x)) eqn:C.
   - (* acquires: done; its listener is dropped, a notification it holds is passed on *)
     set (s' := drop_listener_opt E0 (Some id) (setw W0 (sw0 (s_sh x) - 1) (set_wk [] (s_sh x)))).
@@ -94,9 +95,16 @@ Proof.
     { unfold s', drop_listener_opt, drop_listener. cbn [gete se0 setw set_wk]. destruct (ev_drop id (se0 (s_sh x))); split; reflexivity. }
     destruct E0' as (Q1 & Q2). pose proof (drop_count id (se0 (s_sh x))) as DC. destruct (ev_drop id (se0 (s_sh x))) as [l' ws]. cbn [fst snd] in Q1, Q2. destruct DC as (DC1 & DC2).
     assert (NA : notified_at id (se0 (s_sh x)) <= 1) by (unfold notified_at; destruct (ev_find id (se0 (s_sh x))) as [[| |]|]; lia).
-    assert (G : forall x1, s_futs x1 = aupdate fid f' (s_futs x) -> s_sh x1 = s' -> sPhi (s_wake_all (swk (s_sh x1)) x1) + 1 <= sPhi x).
-    { intros x1 EF ES. pose proof (phi_bound x fid k f f' x1 K1 WO K4 L eq_refl EF) as PB. rewrite ES, Q1, Q2 in PB.
-      rewrite WF, PF in PB. change (wW sfut sf_meta f') with 0 in PB. change (wP sfut sf_meta f') with 0 in PB. rewrite PHI, ES, Q2. lia. }
+    pose proof (cN_remove id (se0 (s_sh x))) as CR.
+    assert (B : N.of_nat (length (swk (baton s'))) + 2 * cN (se0 (baton s')) <= 2 * cN (se0 (s_sh x)) + 3).
+    { unfold baton. destruct (0 <? sw0 s'); [|rewrite Q1, Q2; lia].
+      destruct (notify_world 1 false s') as (N1 & N2 & _). pose proof (notify1_count (se0 s')) as NC.
+      destruct (ev_notify 1 false (se0 s')) as [l2 ws2]. cbn [fst snd] in N1, N2. destruct NC as (NC1 & NC2 & NC3).
+      rewrite N1, N2, app_length, Q2. rewrite Q1 in NC1, NC2, NC3.
+      destruct (N.eq_dec (cN l') 0) as [Z|NZ]; [specialize (NC3 Z) | assert (NC4 : cN l2 = cN l') by (apply NC2; lia)]; lia. }
+    assert (G : forall x1, s_futs x1 = aupdate fid f' (s_futs x) -> s_sh x1 = baton s' -> sPhi (s_wake_all (swk (s_sh x1)) x1) + 1 <= sPhi x).
+    { intros x1 EF ES. pose proof (phi_bound x fid k f f' x1 K1 WO K4 L eq_refl EF) as PB. rewrite ES in PB.
+      rewrite WF, PF in PB. change (wW sfut sf_meta f') with 0 in PB. change (wP sfut sf_meta f') with 0 in PB. rewrite PHI, ES. lia. }
     destruct (sf_arc f); cbn [fst]; apply G; reflexivity.
   - destruct (ev_find id (se0 (s_sh x))) as [[|w0|a]|] eqn:Fd.
     4:{ exfalso. apply ev_find_None in Fd. contradiction. }
@@ -141,9 +149,9 @@ Lemma sW_le_sP x : sW x <= sP x.
 Proof. unfold sW, sP, cW, cP. induction (s_futs x) as [|[k f] l IH]; cbn [asum]; [lia|]. unfold wW, wP in *. destruct (pendb (sf_meta f)); destruct (fm_woken (sf_meta f)); cbn; lia. Qed.
 
 (* C17 for the Semaphore: from any reachable state, however the woken futures are re-polled, at most
-   3 * pending + 2 * listeners polls happen before no pending future is flagged woken any more *)
+   4 * pending + 2 * listeners polls happen before no pending future is flagged woken any more *)
 Theorem sem_settle_bound n ops0 ops : settle_run (srun n ops0) ops ->
-  N.of_nat (length ops) <= 3 * sP (srun n ops0) + 2 * N.of_nat (length (se0 (s_sh (srun n ops0)))).
+  N.of_nat (length ops) <= 4 * sP (srun n ops0) + 2 * N.of_nat (length (se0 (s_sh (srun n ops0)))).
 Proof.
   intro SR. pose proof (sem_settle_bound_gen ops _ (run_SLive n ops0) (run_sWOK n ops0) SR) as B.
   unfold sPhi in B. pose proof (sW_le_sP (srun n ops0)). unfold cN in B. pose proof (count_le_len (se0 (s_sh (srun n ops0)))). lia.
